@@ -460,12 +460,33 @@ func c17Run(res *vh.Result, ci int, rng *vh.Rng) {
 			}
 		}(p)
 	}
+	// waitOrWedge waits for harness goroutines that call into the UPF; if they do not come back the stack is wedged
+	waitOrWedge := func(w *sync.WaitGroup, what string) bool {
+		done := make(chan struct{})
+		go func() { w.Wait(); close(done) }()
+		select {
+		case <-done:
+			return true
+		case <-time.After(20 * time.Second):
+			gs := upfGoroutines()
+			cyc := findCycle(gs)
+			if cyc == "" {
+				cyc = strings.Join(rootCauses(gs), "|")
+			}
+			viol("wedged-under-load:"+cyc, fmt.Sprintf("%s did not return within 20 s: the UPF no longer takes reports (%s)", what, cyc), gs)
+			res.Eval("")
+			res.NextCase = ci + 1
+			res.Write(false)
+			os.Exit(3)
+			return false
+		}
+	}
 	// ---- the stop point ----
 	time.Sleep(time.Duration(c.StopMs) * time.Millisecond)
 	atomic.StoreInt32(&quit, 1) // scripts and direct producers (harness callers of the handler API) end first
 	if c.Mode == "drain-then-stop" {
 		atomic.StoreInt32(&mcastQuit, 1)
-		wg.Wait()
+		waitOrWedge(&wg, "producers and SMF scripts")
 		// exactly-once: every accounted report must reach its SMF in exactly one distinct request
 		deadline := time.Now().Add(5 * time.Second)
 		missing := 0
@@ -525,7 +546,7 @@ func c17Run(res *vh.Result, ci int, rng *vh.Rng) {
 	} else {
 		// direct producers must have returned before Stop (they stand for nothing that survives it);
 		// the multicast channel and the tickers keep going, like the kernel and time do
-		wgDirect.Wait()
+		waitOrWedge(&wgDirect, "the report producers")
 		time.Sleep(time.Duration(rng.Intn(300)) * time.Microsecond)
 	}
 	close(stop)
